@@ -4326,6 +4326,12 @@ impl IceGatherer {
             return Ok(None);
         }
         let parsed = StunMessage::decode(&buf[..len])?;
+        // Only the success response to OUR request counts: the source address of a
+        // datagram proves nothing, the 96-bit transaction id is what ties the answer
+        // to the question (RFC 5389 7.3.3).
+        if parsed.class != StunClass::SuccessResponse || parsed.transaction_id != tx_id {
+            return Ok(None);
+        }
         if let Some(mapped) = parsed.xor_mapped_address {
             let socket = Arc::new(socket);
             self.sockets.lock().push(socket.clone());
